@@ -13,6 +13,7 @@ for f in mutants/*${pat}*.patch; do
     for p in $check_props; do
         out=$(MUTANT_REVERSE=$rev bin/with-mutant "$f" bin/check "$p" --tier quick 2>/dev/null); rc=$?
         nv=$(echo "$out" | grep -c '^VIOLATION')
+        [ $rc = 3 ] && { echo "$(basename "$f") :: $p -> PATCH-DOES-NOT-APPLY"; continue; }
         echo "$(basename "$f") :: $p -> exit=$rc violations=$nv"
     done
 done
